@@ -11,8 +11,8 @@ def regen(ctx):
     return checklib.regen_skeletons(
         ctx,
         [SET + m for m in ("Add", "AddAll", "Delete", "DeleteAll", "Apply", "Compute", "Replace", "apply")] +
-        [OM + m for m in ("Set", "Delete", "Get", "Has", "Clear", "ForEach", "ForEachReverse")],
-        extra_methods=["Set", "Delete", "Get", "Has", "Clear", "ToSlice", "ForEach", "Range", "apply"])
+        [OM + m for m in ("Set", "Delete", "Get", "Has", "Clear", "ForEach", "ForEachReverse", "Head", "Tail", "Size", "IsEmpty", "Clone")],
+        extra_methods=["Set", "Delete", "Get", "Has", "Clear", "ToSlice", "ForEach", "ForEachReverse", "Range", "apply", "Size", "Clone"])
 
 
 SPEC = {
@@ -34,7 +34,9 @@ SPEC = {
         "C11_skeleton_set_Apply", "C11_skeleton_set_Compute", "C11_skeleton_set_Replace", "C11_skeleton_set_apply",
         "C11_skeleton_OrderedMap_Set", "C11_skeleton_OrderedMap_Delete", "C11_skeleton_OrderedMap_Get",
         "C11_skeleton_OrderedMap_Has", "C11_skeleton_OrderedMap_Clear", "C11_skeleton_OrderedMap_ForEach",
-        "C11_skeleton_OrderedMap_ForEachReverse",
+        "C11_skeleton_OrderedMap_ForEachReverse", "C11_skeleton_OrderedMap_Head", "C11_skeleton_OrderedMap_Tail",
+        "C11_skeleton_OrderedMap_Size", "C11_skeleton_OrderedMap_IsEmpty", "C11_skeleton_OrderedMap_Clone",
+        "C11_clone_reentrant_deadlock_witness",
     ],
     "trusted_base": [
         "hand-written models Hive/Model/OMap.lean (abstract ordered map, ds.Set, SetMutations, SetArithmetic, byte format), "
@@ -66,7 +68,8 @@ SPEC = {
                 "well-formed (C11_deadlock_free, C11_deadlock_free_methods; the pre-fix DeleteAll deadlock is C11_old_deleteall_deadlock_witness), "
                 "Apply/Compute/Replace exclude all other mutators (C11_apply_atomic), Add/Delete/Has/Clear are linearizable "
                 "(C11_single_linearizable), the history checker is sound (C11_lincheck_sound). Tie on every run: differential execution of "
-                "~5000 random 40-op histories on the real OrderedMap/Set/SetArithmetic incl. serix Encode/Decode, forced "
+                "~5000 random 40-op histories on the real OrderedMap/Set/SetArithmetic incl. serix Encode/Decode (uint8, struct{}, *struct, "
+                "[]uint16 and map values, value-exact and pointer-distinct), Clone/ForEach on 1000+-entry maps against a pending writer, forced "
                 "'argument ForEach parked while a writer is pending' schedules, multi-goroutine stress histories decided by the Lean "
                 "linearizability checker and an independent Go oracle, regenerated lock skeletons (C11_skeleton_*).",
         "note": "Trusted: Lean kernel; the three hand-written models (tie = differential execution + lock skeletons + recorded histories); "
